@@ -167,7 +167,9 @@ func setterLayers(j judge, tier string) []Layer {
 							z := buildPre(pre, p, m)
 							arg := new(big.Int).Set(v)
 							pv, _ := protect(func() { z.SetInt(arg) })
-							key := func() string { return fmt.Sprintf("SetInt(%s) prec=%d mode=%s pre=%s", v, p, modeName(m), preNames[pre]) }
+							key := func() string {
+								return fmt.Sprintf("SetInt(%s) prec=%d mode=%s pre=%s", v, p, modeName(m), preNames[pre])
+							}
 							if arg.Cmp(v) != 0 {
 								c.Fail(key(), "argument modified")
 							}
